@@ -20,7 +20,12 @@
                                                        columns -- known finding C02:zero-row-screen -- and a selection of the wrong
                                                        length), C03_history (induction over histories)
   4. "Consequently posterior samples learned on one stage produce identical predictions for the same experiments on every
-     later stage"                                      C03_predictions_stable, C03_predictions_stable_incl_prepared -- for every
+     later stage"                                      premise "the ids used when training are the ids of the later stages":
+                                                       Props/C03Train.lean -- C03_training_ids_are_stage_ids (what train_model hands the
+                                                       model decodes through the stage's tables), C03_training_ids_agree_across_histories
+                                                       (= the prepared screen's ids at every stage), C03_training_materialised_counterexample
+                                                       (the to_screen() variant, seeded change S7-C03, refuted);
+                                                       conclusion: C03_predictions_stable, C03_predictions_stable_incl_prepared -- for every
                                                        predictor that is a function of (sample id, treatment ids) of the row; that the
                                                        real predictors are of this form is C09 (C09's theorems), the real
                                                        SparseDrugComboMCMCSample is exercised by the harness
